@@ -68,7 +68,8 @@ PROPS = {
     'C02': {'functions': ['info.ValueInfo.convert', 'matcher.SchemaMatcher.__init__', 'matcher.SchemaMatcher.finish'] + MATCHER +
             [CFG + 'start_section', CFG + 'end_section', CFG + 'parse', 'loader.ConfigLoader.endSection', 'loader.ConfigLoader.loadResource'] +
             ['info.BaseKeyInfo.prepare_raw_defaults', 'info.KeyInfo.computedefault', 'info.MultiKeyInfo.computedefault',
-             'info.SchemaType.deriveSectionType', SP + 'get_name_info', SP + 'get_key_info'],
+             'info.SchemaType.deriveSectionType', SP + 'get_name_info', SP + 'get_key_info', SP + 'start_key',
+             'info.BaseKeyInfo.adddefault', 'info.KeyInfo.add_valueinfo'],
             'standin': True},
     'C03': {'functions': CFG_ALL,
             'rx': ['rx:cfgparser._keyvalue_rx', 'rx:cfgparser._section_start_rx'], 'standin': True},
